@@ -85,12 +85,39 @@ def record_fields(repo, mod, name, allow_methods=False):
     fields = []
     for st in cn.body:
         if isinstance(st, ast.AnnAssign) and isinstance(st.target, ast.Name):
-            if st.value is not None:
-                return None          # defaults: positions of omitted arguments would have to be resolved
+            if st.value is not None and not isinstance(st.value, ast.Constant):
+                return None          # only constant defaults: an omitted argument is that constant (see record_defaults / Fold.visit_Call)
             fields.append(st.target.id)
         elif isinstance(st, (ast.FunctionDef,)) and st.name in ("__init__", "__new__", "__post_init__", "__getattribute__", "__getattr__"):
             return None
     return fields or None
+
+
+def record_defaults(repo, mod, name):
+    """{field: constant default} of a plain record class of the repository ({} when it declares none)"""
+    cq = repo.chase(mod, name)
+    cn = repo.classes.get(cq) if cq else None
+    if cn is None:
+        return {}
+    return {st.target.id: st.value for st in cn.body if isinstance(st, ast.AnnAssign) and isinstance(st.target, ast.Name) and isinstance(st.value, ast.Constant)}
+
+
+def complete_record_call(repo, mod, call):
+    """K(a, b) with K a plain record whose remaining fields have constant defaults -> K(a, b, c=<default>) in place; True if changed"""
+    if not (isinstance(call, ast.Call) and isinstance(call.func, ast.Name)) or any(isinstance(a, ast.Starred) for a in call.args) or any(k.arg is None for k in call.keywords):
+        return False
+    fields = record_fields(repo, mod, call.func.id)
+    if fields is None or len(call.args) + len(call.keywords) >= len(fields) or len(call.args) > len(fields):
+        return False
+    dflt = record_defaults(repo, mod, call.func.id)
+    given = set(fields[:len(call.args)]) | {k.arg for k in call.keywords}
+    missing = [fl for fl in fields if fl not in given]
+    if not missing or any(fl not in dflt for fl in missing) or not given <= set(fields):
+        return False
+    import copy as _copy
+    for fl in missing:
+        call.keywords.append(ast.keyword(arg=fl, value=_copy.deepcopy(dflt[fl])))
+    return True
 
 
 def record_value(repo, mod, call, field):
@@ -410,16 +437,25 @@ class _Synonyms(ast.NodeTransformer):
     """exact synonyms, applied to every function: getattr(x, "name") -> x.name; vars(x) -> x.__dict__;
     np.bitwise_or(a, b) -> a | b (likewise and/xor); np.invert(a) / np.bitwise_not(a) -> ~a; x[slice(a, b)] -> x[a:b];
     f(*(a, b)) -> f(a, b)"""
-    def visit_Subscript(self, n):
-        self.generic_visit(n)
-        sl = n.slice
+    @staticmethod
+    def _slice_call(sl):
         if isinstance(sl, ast.Call) and isinstance(sl.func, ast.Name) and sl.func.id == "slice" and 1 <= len(sl.args) <= 3 and not sl.keywords:
             a = sl.args
             none = lambda x: isinstance(x, ast.Constant) and x.value is None
             lo = None if len(a) == 1 or none(a[0]) else a[0]
-            up = a[0] if len(a) == 1 else (None if none(a[1]) else a[1])
+            up = (None if none(a[0]) else a[0]) if len(a) == 1 else (None if none(a[1]) else a[1])
             stp = a[2] if len(a) == 3 and not none(a[2]) else None
-            n.slice = ast.Slice(lower=lo, upper=up, step=stp)
+            return ast.Slice(lower=lo, upper=up, step=stp)
+        return sl
+
+    def visit_Subscript(self, n):
+        self.generic_visit(n)
+        n.slice = self._slice_call(n.slice)
+        if isinstance(n.slice, ast.Tuple):
+            n.slice.elts = [self._slice_call(e) for e in n.slice.elts]
+            # X[:, :]  (two or more full slices: array-only syntax, a view of all of X) read as a value is X
+            if isinstance(n.ctx, ast.Load) and len(n.slice.elts) >= 2 and all(isinstance(e, ast.Slice) and e.lower is None and e.upper is None and e.step is None for e in n.slice.elts):
+                return n.value
         return n
     def visit_Call(self, n):
         self.generic_visit(n)
